@@ -77,6 +77,14 @@ fn build(ids: &[usize], n: usize, bits: u32) -> (G, Model) {
     (g, m)
 }
 
+fn build_spec(ids: &[usize], es: &[(usize, usize)]) -> (G, Model) {
+    let mut g = G::new();
+    let mut m = Model { vs: S::new(), es: BTreeSet::new() };
+    for &i in ids { g.insert_vertex(NullVertex::new(i)).unwrap(); m.vs.insert(i); }
+    for &(h, t) in es { if m.es.insert((h, t)) { g.insert_edge(NullEdge::new(h, t)).unwrap(); } }
+    (g, m)
+}
+
 fn set_of<I: IntoIterator<Item = usize>>(i: I) -> S { i.into_iter().collect() }
 
 fn main() {
@@ -97,11 +105,34 @@ fn main() {
         }};
     }
     let idsets: [[usize; 4]; 2] = [[0, 1, 2, 3], [5, 2, 9, 3]];
+    // graph specs: (vertex ids, edges). First every digraph on <= 4 vertices, then pseudo-random digraphs on 5..=8
+    // vertices (deterministic LCG seeded by VERIF_SEED) - some defects of the dominator code need >= 6 vertices.
+    let mut specs: Vec<(Vec<usize>, Vec<(usize, usize)>)> = vec![];
     for n in 1..=4usize {
         for ids in &idsets {
             for bits in 0u32..(1u32 << (n * n)) {
                 if n == 4 && ids[0] == 5 && bits % 7 != 0 { continue; } // scrambled ids: a 1/7 sample at n = 4
-                let (g, m) = build(ids, n, bits);
+                let mut es = vec![];
+                for h in 0..n { for t in 0..n { if bits & (1 << (h * n + t)) != 0 { es.push((ids[h], ids[t])); } } }
+                specs.push((ids[..n].to_vec(), es));
+            }
+        }
+    }
+    let mut lcg: u64 = 0x9e3779b97f4a7c15 ^ std::env::var("VERIF_SEED").ok().and_then(|s| s.parse::<u64>().ok()).unwrap_or(0);
+    let mut next = move || { lcg = lcg.wrapping_mul(6364136223846793005).wrapping_add(1442695040888963407); (lcg >> 33) as u32 };
+    for k in 0..24000u32 {
+        let n = 5 + (k % 4) as usize;
+        let ids: Vec<usize> = (0..n).map(|i| if k % 3 == 0 { i * 3 + 1 } else { i }).collect();
+        let density = 12 + (k / 4) % 30; // percent
+        let mut es = vec![];
+        for h in 0..n { for t in 0..n { if next() % 100 < density { es.push((ids[h], ids[t])); } } }
+        specs.push((ids, es));
+    }
+    {
+        {
+            for (ids, es) in &specs {
+                let (g, m) = build_spec(ids, es);
+                let large = ids.len() > 4;
                 graphs += 1;
                 // whole-graph functions
                 evals += 1;
@@ -127,7 +158,7 @@ fn main() {
                     Ok(Err(_)) => if !cyc { report!("compute_topological_ordering", m, 0, "Err", "Ok (acyclic)"); },
                     Err(_) => report!("compute_topological_ordering", m, 0, "panic", "no panic"),
                 }
-                for &root in &m.vs {
+                for &root in m.vs.iter().take(if large { 2 } else { 8 }) {
                     let reach = m.reach(root, None);
                     evals += 13;
                     // reachability
